@@ -11,7 +11,7 @@ CHECKS = {
          "seeded traffic + value faults; re-encoder as consumer stage; reference offsets"),
  "C03": ("fault_enumeration", "6", "Every size-field kind (commandSize, responseSize, authSize, parameterSize, TPM2B sizes at depth 0..5 incl. synthetic nested layouts) perturbed by -k/+k/0/max/random; the reference model decodes the perturbed bytes and yields the set of admissible reports; class, details and emitted events must match one of them; sizes also take the value of another size / count field or end exactly at a later field or are off by count x size-of-one-element for lists of differently sized elements (relations between fields); cooperating faults: one field overrunning two, three or more nested regions by different amounts.",
          "medium fault injection on stored size fields + reference-model oracle with admissible-report sets"),
- "C04": ("fault_enumeration", "6", "Every constrained leaf kind replaced by values just outside / far outside / on the boundary of its allowed set, single and double faults, also the number a neighbouring field holds; raise-iff, path/type/value, probed allowed set and emitted events are compared with the reference model.",
+ "C04": ("fault_enumeration", "6", "Every constrained leaf kind replaced by values just outside / far outside / on the boundary of its allowed set, single and double faults, also the number a neighbouring field holds; lone responses decoded with a reserved number as command_code argument (table gaps, one higher bit set); raise-iff, path/type/value, probed allowed set and emitted events are compared with the reference model.",
          "medium fault injection on stored values + reference-model oracle"),
  "C05": ("fault_enumeration", "6", "Crash points: truncation at every kind of instant of the decoder state (0, 1, header, field boundaries, nested buffers, session area, len-1) and appended suffixes, for all root types incl. empty encodings and streams, also MB-sized surplus through unsized sources; class, command code, surplus bytes and emitted events compared with the reference model.",
          "crash-point (EOF / surplus) injection + reference-model oracle"),
@@ -21,7 +21,7 @@ CHECKS = {
          "medium faults + crash point at the fault + reference-model byte accounting"),
  "C07": ("exploration", "6", "Purely differential: the same bytes (well-formed, size/value/length/history faults, random) are decoded by a strict task and a warn task of the same simulated run; prefixes up to the first problem and the error details (snapshotted at emission) must agree.",
          "two-task differential simulation over fault-injected inputs"),
- "C08": ("fault_enumeration", "6", "Warn-mode decodes of single- and multi-fault inputs (all size-field kinds, values, truncation/surplus, message loss/duplication/reordering, random bytes): nothing may escape except a justified ValueConstraintViolatedError; a model-light candidate-set tiling checker verifies that the emitted fields tile the input with skips exactly to the ends the reported size fields declare; value-only faults are compared with the reference model's lenient walk; a warning about a union (selector without member) is itself a violation; fault families: nested pairs, nested chains, straddles, beyond-enclosing, far sizes with filler beyond 64 KiB, invalid selector + region ending right there.",
+ "C08": ("fault_enumeration", "6", "Warn-mode decodes of single- and multi-fault inputs (all size-field kinds, values, truncation/surplus, message loss/duplication/reordering, random bytes): nothing may escape except a justified ValueConstraintViolatedError; a model-light candidate-set tiling checker verifies that the emitted fields tile the input with skips exactly to the ends the reported size fields declare and that no field's bytes come from behind a declared end; value-only faults are compared with the reference model's lenient walk; a warning about a union (selector without member) is itself a violation; fault families: nested pairs, nested chains, straddles, beyond-enclosing, far sizes with filler beyond 64 KiB, invalid selector + region ending right there.",
          "fault-sequence injection + tiling invariant over the recorded event history + lenient reference walk"),
  "C09": ("exploration", "6", "Generated conversations (all command codes, sessions, encryption, failed responses, trailing command) decoded as one stream and message by message (command code / flag from the generator) as tasks of one run; events, objects and message boundaries (pull counts) compared; twin responses, capability / StartAuthSession preambles with coherent handles, scenario captures; 10% of the runs in warn mode with out-of-range values (e.g. a bad tag on a later command) that leave boundaries alone; a stream kept from early in the worker's life is re-checked message by message much later (C09.d).",
          "history-based simulation: stream task vs per-message tasks; pull-count boundary invariant"),
@@ -29,13 +29,13 @@ CHECKS = {
          "byte-source seam with pull counting, crash points, source-kind swarm"),
  "C11": ("exploration", "6", "Decoder object vs events_to_obj, obj_to_events of both vs decoded events (==, lengths, value classes), re-encoding, Canonical facade, on swept and sampled well-formed inputs biased to absent parts, with bystander decodes in between; events / objects of messages decoded many runs earlier in the same process are converted again later (decode now, convert later).",
          "seeded traffic + round-trip oracles inside scheduled runs"),
- "C12": ("exploration", "6", "2-4 decode tasks per run over messages with encrypted parameter areas of different commands, histories A,B,A / A,A / A,B,C,A and step-wise interleavings incl. pre-emption inside a byte pull and cancelled bystanders; every decode is compared (==, type identity) with solo decodes of the same arguments at the start and the end of the run and with stream slices; bystanders request parameter encryption on arbitrary commands; long-lived probe messages decoded when a worker process starts are re-decoded hundreds of runs later and compared with the results kept since then (C12.e); the same arguments are decoded in a fresh interpreter (plain and -O) and compared (C12.f); A,B,A histories over capture containers; calls into other public helpers of the library as bystanders; warn-mode decodes of malformed inputs; attribute words of different types holding the same number and two root paths that print identically, each decode compared with an interpreter of its own; C12.H: the decodes of a run concurrently in OS threads of a fresh interpreter, the baton changing hands at seeded line events inside the library (sys.settrace).",
+ "C12": ("exploration", "6", "2-4 decode tasks per run over messages with encrypted parameter areas of different commands, histories A,B,A / A,A / A,B,C,A and step-wise interleavings incl. pre-emption inside a byte pull and cancelled bystanders; every decode is compared (==, type identity) with solo decodes of the same arguments at the start and the end of the run and with stream slices; bystanders request parameter encryption on arbitrary commands; long-lived probe messages decoded when a worker process starts are re-decoded hundreds of runs later and compared with the results kept since then (C12.e); the same arguments are decoded in a fresh interpreter (plain and -O) and compared (C12.f); A,B,A histories over capture containers; calls into other public helpers of the library as bystanders; warn-mode decodes of malformed inputs; attribute words of different types holding the same number and two root paths that print identically, each decode compared with an interpreter of its own; C12.g: the synthesized parameter-area type used as the root type of a decode of its own must come back as the very same type; C12.H: the decodes of a run concurrently in OS threads of a fresh interpreter, the baton changing hands at seeded line events inside the library (sys.settrace).",
          "seeded scheduler over generator tasks sharing process-global state (the property the scheduler exists for)"),
  "C14": ("exploration", "6", "Printers run as lazy consumer tasks over strict and warn decodes of all input families; rows are parsed by tokens and matched against rows derived independently from the recorded events (one row per structure/primitive/warning, one per byte buffer, bit rows, depth, hex column, text form against the pinned text forms; a list without element events must keep its own row; the events printer yields one line per event naming its path; captures of more than 65536 events; a second printer pipeline interleaved, also two captures of failed responses printed row by row in turn; C14.h: the recorded events printed again alone must give the same rows).",
          "consumer-stage simulation over fault-injected event streams; token-level row oracle"),
- "C15": ("exploration", "6", "Generated streams rendered into hex / swtpm-log / pcapng containers by independent writers with seeded noise (interleaved control channel, runt packets, mssim trailer, Ethernet/raw-IP), container faults (torn pair, non-hex incl. int()-syntax characters, lower case), malformed traffic (size / length / medium faults on individual messages) inside well-formed containers, long captures, texts torn at block multiples, section markers aligned to 64 KiB, pcapng with ACK-only segments / two directions / retransmitted segments / clock steps / long comments, small-alphabet strings for the hex scanner; front-end vs direct decode; Auto vs matching front-end; ValueError for non-hex text.",
+ "C15": ("exploration", "6", "Generated streams rendered into hex / swtpm-log / pcapng containers by independent writers with seeded noise (interleaved control channel, runt packets, mssim trailer, Ethernet/raw-IP), container faults (torn pair, non-hex incl. int()-syntax characters, lower case), malformed traffic (size / length / medium faults on individual messages) inside well-formed containers, long captures, texts torn at block multiples, section markers aligned to 64 KiB, pcapng with ACK-only segments / two directions / retransmitted segments / clock steps / long comments / host addresses that read like another layer's type field, small-alphabet strings for the hex scanner; front-end vs direct decode; Auto vs matching front-end; ValueError for non-hex text.",
          "container writer noise + torn/garbled storage faults; independent reference readers"),
- "C19": ("exploration", "6", "CLI invocations in-process (patched argv/stdin with short reads/stdout, real temp files, multi-file streams) compared with library results for the same bytes; refusals; `type` against a strict decode under every type; `example` blocks re-decoded; a quota re-run as real subprocesses to validate the harness; input through named pipes and /dev/stdin; pieces that are empty or start like another file format; the same path several times on the command line; refusals of misspelled names and of identifiers that are not names; `example` for every command and type name over seeded subsets of the bundled captures.",
+ "C19": ("exploration", "6", "CLI invocations in-process (patched argv/stdin with short reads/stdout, real temp files, multi-file streams) compared with library results for the same bytes; refusals; `type` against a strict decode under every type; `example` blocks re-decoded; a quota re-run as real subprocesses to validate the harness; input through named pipes and /dev/stdin; pieces that are empty or start like another file format; the same path several times on the command line; refusals of misspelled names and of identifiers that are not names; hex files that start with what editors leave behind (byte order marks, 0x, comment lines) must be rejected like the library rejects them; `example` for every command and type name over seeded subsets of the bundled captures.",
          "process-I/O seam simulation (argv, files, stdin short reads, stdout, exit status) + differential oracle"),
 }
 LEVEL_NOTE = ("Trusted base: the reference interpreter (sim/model.py) and the pinned layout snapshot (layout/tpm20_layout.json, "
